@@ -1,24 +1,38 @@
 //! One oracle module per property.
 use crate::ctx::Ctx;
 
-pub mod c08;
-
-/// Dispatch; returns false for an unknown property id.
-pub fn run(ctx: &mut Ctx) -> bool {
-    match ctx.prop.as_str() {
-        "C08" => c08::run(ctx),
-        _ => return false,
-    }
-    true
+macro_rules! monitors {
+    ($($id:literal => $m:ident),* $(,)?) => {
+        $(pub mod $m;)*
+        /// Dispatch; returns false for an unknown property id.
+        pub fn run(ctx: &mut Ctx) -> bool {
+            match ctx.prop.as_str() {
+                $($id => $m::run(ctx),)*
+                _ => return false,
+            }
+            true
+        }
+        /// How cases are generated and what makes one distinct / non-trivial (evidence `rule`).
+        pub fn rule(prop: &str) -> String {
+            match prop {
+                $($id => $m::RULE,)*
+                _ => "",
+            }
+            .to_string()
+        }
+        fn extra_assumptions(prop: &str) -> &'static [&'static str] {
+            match prop {
+                $($id => $m::ASSUMPTIONS,)*
+                _ => &[],
+            }
+        }
+        pub const ALL: &[&str] = &[$($id),*];
+    };
 }
 
-/// How cases are generated and what makes one distinct / non-trivial (evidence `rule`).
-pub fn rule(prop: &str) -> String {
-    match prop {
-        "C08" => c08::RULE,
-        _ => "",
-    }
-    .to_string()
+monitors! {
+    "C02" => c02,
+    "C08" => c08,
 }
 
 pub fn assumptions(prop: &str) -> Vec<String> {
@@ -27,11 +41,7 @@ pub fn assumptions(prop: &str) -> Vec<String> {
         "harness built with debug assertions and overflow checks on, cfg tls_parser_verif, features std+serialize",
     ];
     let mut v: Vec<String> = common.iter().map(|s| s.to_string()).collect();
-    let extra: &[&str] = match prop {
-        "C08" => c08::ASSUMPTIONS,
-        _ => &[],
-    };
-    v.extend(extra.iter().map(|s| s.to_string()));
+    v.extend(extra_assumptions(prop).iter().map(|s| s.to_string()));
     v
 }
 
